@@ -54,11 +54,28 @@ impl Check for C01 {
             }
             plan.order = Some(v);
         }
+        // a quarter of the programs are written with maximal legal shadowing (binders reuse each other's names:
+        // a case binding named like a parameter, a loop-local named like an outer local, ...)
+        if t.chance(1, 4) {
+            let (names, _) = syltmodel::scope::shadow_plan(&mut t, &prog);
+            plan.names = Some(names);
+        }
         let source = render(&prog, &plan).text;
         Some(ProgCase { prog, plan, source })
     }
 
     fn evaluate(&self, case: &ProgCase, labels: &mut Labels) -> Verdict {
+        if let Some(names) = &case.plan.names {
+            // (a shrunk program keeps the plan of the original; re-validate it against the independent scope model)
+            let rep = syltmodel::scope::check(&case.prog, names);
+            if !rep.ok {
+                return Verdict::Discard("shadowing plan no longer consistent".into());
+            }
+            labels.add("names:shadowing-plan");
+            if rep.shadowed_refs > 0 {
+                labels.add("names:shadowed-references");
+            }
+        }
         let ev = crate::trace::trace_eval("C01", case, labels, false);
         match (ev.verdict, ev.reference) {
             (Verdict::Pass { .. }, Some(r)) => {
